@@ -137,14 +137,14 @@ Qed.
 
 Lemma mouse_press_focuses_lemma :
   forall s maxrow row pos r win cur,
-    ViewOK s -> pend s = PNone -> heights_ok (items s) -> 1 <= maxrow ->
+    ViewOK s -> pend s = PNone -> vpend s = None -> heights_ok (items s) -> 1 <= maxrow ->
     (forall w, nthz (items s) (focus s) = Some w -> cursor_ok w) ->
     render s maxrow true = Ok (s, (win, cur)) ->
     nthz win row = Some (pos, r) -> 0 <= pos -> sel_at (items s) pos = true ->
     exists s' b, mouse_press s maxrow 1 row = Ok (s', b) /\ focus s' = pos /\ ViewOK s'.
 Proof.
-  intros s maxrow row pos r win cur [Ho Hnd] Hp Hh Hmr Hc Hr Hrow Hpos Hsel.
-  rewrite (render_no_pending _ _ _ Hp) in Hr.
+  intros s maxrow row pos r win cur [Ho Hnd] Hp Hvp Hh Hmr Hc Hr Hrow Hpos Hsel.
+  rewrite (render_no_pending _ _ _ Hp Hvp) in Hr.
   destruct (nthz (items s) (focus s)) as [w|] eqn:Hw.
   2: { rewrite render_view_empty in Hr by assumption. inversion Hr; subst.
        apply nthz_In, repeat_spec in Hrow. inversion Hrow; subst. lia. }
@@ -179,9 +179,9 @@ Proof.
   replace (row - - v_trim_top v) with (row + v_trim_top v) in Hn' by lia.
   rewrite Hn in Hn'. inversion Hn'; subst pos'. clear Hn'.
   destruct (number_In _ _ _ _ (Hwl _ _ Hin)) as (w' & Hw' & Hrows). replace (pos - 0) with pos in Hw' by lia.
-  unfold mouse_press, calculate_visible, set_focus_complete. rewrite Hp, Ev. fold wl. rewrite Hf.
+  unfold mouse_press, calculate_visible, set_focus_complete, set_focus_pending_complete. rewrite Hp, Hvp, Ev. fold wl. rewrite Hf.
   change (1 =? 1) with true. rewrite Hsel. cbn [andb].
-  unfold change_focus. rewrite Hw'. unfold snap. cbn [is_above is_below andb].
+  unfold change_focus, change_focus_sr. rewrite Hw'. unfold snap_sr. cbn [is_above is_below andb].
   destruct (0 <=? wr) eqn:E1.
   - cbn [Z.eqb]. eexists; eexists. split; [reflexivity|]. cbn. unfold ViewOK. cbn. splits; try reflexivity; lia.
   - destruct (wr + i_rows w' <=? 0) eqn:E2; [lia|].
